@@ -222,9 +222,9 @@ func genCases(seed uint64, n int, thorough bool) []Case {
 	}
 
 	// path.Clean: every string over {a,b,.,/} up to a length bound.
-	cleanLen := 6
+	cleanLen := 7
 	if thorough {
-		cleanLen = 8
+		cleanLen = 9
 	}
 	for _, s := range allStrings("ab./", cleanLen) {
 		add(Case{Stream: "clean", Op: "clean", S: s})
